@@ -250,6 +250,16 @@ def pack_dataclass(spec: ValueSpec) -> Optional[Expression]:
             )
             != method_name
         ):
+            if spec.builder.dialect is not None and spec.builder.is_nailed:
+                # the dialect specific method is only reachable through the
+                # plain one, which a lazily compiled class doesn't have yet
+                spec.builder.__class__(
+                    spec.origin_type,
+                    type_args,
+                    allow_postponed_evaluation=False,
+                    format_name=spec.builder.format_name,
+                    default_dialect=spec.builder.default_dialect,
+                ).add_pack_method()
             builder = spec.builder.__class__(
                 spec.origin_type,
                 type_args,
